@@ -200,6 +200,7 @@ def check_trajectory(r, case):
         for joint in product(*[[None] + w.per[a] for a in w.agents]):
             members = [c for c in joint if c is not None]
             if not members:
+                out.append((joint, st))  # every agent idles: a step of its own that changes nothing
                 continue
             try:
                 if all(applicable(w.S, w.S.actions[n], a, st, w.objs) for n, a in members):
@@ -235,6 +236,12 @@ def check_trajectory(r, case):
                 r.fail("trajectory-state", f"joint plan {lines} step {i}: {show(pre)} -> {show(post)}, expected "
                        f"{states[i].to_json()} -> {states[i + 1].to_json()}", states[i + 1].to_json(), show(post),
                        tags=[case["domain"], "trajectory"])
+                return
+            tag_ok = ":init" in t.previous_state.serialize()[:8] if i == 0 else ":state" in t.previous_state.serialize()[:8]
+            if not tag_ok or ":state" not in t.next_state.serialize()[:8]:
+                r.fail("trajectory-text", f"joint plan {lines} step {i}: state tags {t.previous_state.serialize()[:7]} -> "
+                       f"{t.next_state.serialize()[:7]}: only the first state of a trajectory is the initial state",
+                       "(:init / (:state", t.next_state.serialize()[:7], tags=[case["domain"], "trajectory", "tag"])
                 return
             if len(t.joint_action) != len(w.agents):
                 r.fail("trajectory-slots", f"joint plan {lines} step {i}: {len(t.joint_action)} operator slots for "
